@@ -1676,6 +1676,10 @@ public:
 
 template<template<typename,size_t...> class TensorType, typename T, size_t DIMS, size_t ... Rest>
 constexpr std::array<size_t,DIMS> TensorViewExpr<TensorType<T,Rest...>,DIMS>::products_;
+// the const view needs the same out-of-class definition, otherwise products_ is an undefined
+// reference when it is odr-used before C++17
+template<template<typename,size_t...> class TensorType, typename T, size_t DIMS, size_t ... Rest>
+constexpr std::array<size_t,DIMS> TensorConstViewExpr<TensorType<T,Rest...>,DIMS>::products_;
 
 
 } // end of namespace Fastor
